@@ -225,6 +225,34 @@ var c15LoadProfiles = []string{"pa", "pb", "pc"}
 func c15GenLoad(ctx *core.Ctx) {
 	c15LoadCtx = ctx
 	r := ctx.Rng
+	// exhaustive small scope: 2 services × profile sets {∅, {pa}, {pb}}² × the edge s1 → s0 {none, required, optional}
+	// × 6 profile lists × the 4 flag combinations, through loader.Options.Profiles; the cli path on a rotating third
+	n := 0
+	for _, p0 := range [][]string{nil, {"pa"}, {"pb"}} {
+		for _, p1 := range [][]string{nil, {"pa"}, {"pb"}} {
+			for e := 0; e < 3; e++ {
+				for _, ps := range [][]string{nil, {"pa"}, {"*"}, {"pb", "*"}, {""}, {"pa", "pb"}} {
+					for f := 0; f < 4; f++ {
+						a := c15LoadArgs{Svcs: map[string]c15LoadSvc{}, Env: map[string]string{"K1": "from-project"}, Path: "opts", Profiles: ps,
+							SkipConsistency: f&1 == 1, SkipResolve: f&2 == 2, SelPol: []string{"deps", "dependents", "ignore"}[n%3], SelMask: 1 + n%3}
+						a.Svcs["s0"] = c15LoadSvc{Profiles: p0, Env: []string{"K1"}}
+						s1 := c15LoadSvc{Profiles: p1, Deps: map[string]bool{}, Env: []string{"K1", "K2=v"}}
+						if e > 0 {
+							s1.Deps["s0"] = e == 1
+						}
+						a.Svcs["s1"] = s1
+						if n%3 == 2 && len(ps) > 0 {
+							a.Path, a.Profiles = "cli", nil
+							a.Env["COMPOSE_PROFILES"] = strings.Join(ps, " ,")
+						}
+						n++
+						ctx.Count("load-exhaustive-2svc")
+						ctx.Add("c15load", a)
+					}
+				}
+			}
+		}
+	}
 	for i := 0; i < ctx.Pick(2500, 30000); i++ {
 		n := 1 + r.Intn(5)
 		names := []string{}
